@@ -407,6 +407,7 @@ class Net:
         self.trace = []            # delivery trace (for determinism checks / replays)
         self.n_events = 0
         self.split_policy = default_split_positions
+        self.exec_cancellable = False   # executor jobs whose future is cancelled before completion are withdrawn (queued jobs)
         self.sndbuf = None         # bytes of one direction the "kernel" copies at write() time (None = everything)
         self.on_event = None       # callback(n_events) after each delivery (fault injection)
 
@@ -762,7 +763,16 @@ class SimLoop(base_events.BaseEventLoop):
         if args:
             import functools
             func = functools.partial(func, *args)
-        self.net.jobs.append(ExecJob(self.net.new_seq(), func, fut))
+        job = ExecJob(self.net.new_seq(), func, fut)
+        self.net.jobs.append(job)
+        if self.net.exec_cancellable:
+            # the job is still *queued* in the pool (all workers busy): cancelling its future withdraws it, the blocking
+            # function never runs.  (Default False: the job is taken to be running already and completes regardless.)
+            def withdrawn(f, job=job):
+                if f.cancelled() and job in self.net.jobs:
+                    self.net.jobs.remove(job)
+                    self.net.trace.append(("exec-withdrawn", getattr(job.func, "__name__", "job")))
+            fut.add_done_callback(withdrawn)
         return fut
 
     # -- manual stepping ---------------------------------------------------
